@@ -3,7 +3,7 @@
 import json, pathlib, sys
 ROOT = pathlib.Path(__file__).resolve().parent.parent
 sys.path.insert(0, str(ROOT))
-from tools.manifest_table import CHECKS, NOT_APPLICABLE, FIX_COMMITS  # noqa
+from tools.manifest_table import CHECKS, NOT_APPLICABLE, FIX_COMMITS, EXTRA  # noqa
 
 def cmd(pid, tier):
     return f"cd /verif && PYTHONHASHSEED=0 /venv/bin/python check.py {pid} --tier {tier}"
@@ -40,7 +40,7 @@ for c in CHECKS:
         "evidence_file": f"/verif/evidence/{pid}.json",
         "replay_cmd_template": f"cd /verif && PYTHONHASHSEED=0 /venv/bin/python check.py {pid} --replay {{path}}",
         "engine": "simloop",
-        "level_claimed": {"category": c["level"], "text": c["text"], "design_ref": c["design_ref"]},
+        "level_claimed": {"category": c["level"], "text": c["text"] + EXTRA.get(pid, ""), "design_ref": c["design_ref"]},
         "level_note": c["note"],
         "technique": c["technique"],
     })
